@@ -152,6 +152,10 @@ fn main() {
                         Err(p) => { failed = Some(format!("panic:{}", p)); break; }
                     }
                 }
+                // items that ask for it: let the wall clock move on before the last run
+                if it.name.ends_with("-sleep") {
+                    std::thread::sleep(std::time::Duration::from_millis(1100));
+                }
                 // once more on a fresh OS thread: per-thread state left behind by earlier reports must not leak into this one
                 if failed.is_none() {
                     let r = std::thread::scope(|sc| sc.spawn(|| guarded(|| process(it, 1, 0, 0).map(|state| {
